@@ -44,7 +44,9 @@ ExhaustiveAware ==
           : n \in 1..AwareN }
 
 \* (a succeeding member's kind is moot: "plain"; the all-plain assignments are in Exhaustive already)
-KindsFor(n, p) == {g \in [1..n -> ErrKinds] : (\A m \in 1..n : p[m] => g[m] = "plain") /\ g # PlainErrs(n)}
+\* (three members: one representative of each family of kinds, to keep the family at ~40 000 cases)
+KindsOf(n) == IF n <= 2 THEN ErrKinds ELSE {"plain", "deadline", "wcanceled", "gcanceled"}
+KindsFor(n, p) == {g \in [1..n -> KindsOf(n)] : (\A m \in 1..n : p[m] => g[m] = "plain") /\ g # PlainErrs(n)}
 ExhaustiveKinds ==
   UNION { UNION { { [kind |-> "exhaustive-kinds", strat |-> s, api |-> "Execute", n |-> n, plan |-> p, fk |-> f, aware |-> Plain(n),
                      order |-> IF k = -1 THEN o ELSE InsertAt(o, k, e)] :
